@@ -153,6 +153,17 @@ extern bool g_tainted;      // set after a trapped crash: the process state may 
 typedef int (*ToolMain)(int, const char **);
 Trapped runTool(ToolMain fn, const std::vector<std::string> &argv);
 
+//---------------------------------------------------------------------------------------------
+// Clock and process identity.  While a simulated clock is active (the harness switches it on around
+// code under test) time(), gettimeofday(), clock_gettime() and getpid() answer from the plan: the
+// clock reads `base` seconds and advances one microsecond per reading.
+//---------------------------------------------------------------------------------------------
+namespace simclock {
+void activate(uint64_t baseSeconds, int pid);
+void deactivate();
+uint64_t readings();      // how often the code under test looked at the clock or its pid
+} // namespace simclock
+
 void pinToCpu(int cpu);
 
 } // namespace sim
